@@ -768,7 +768,23 @@ func (f *frame) applyContract(at ssa.Instruction, ct *Contract, args []T, st *St
 	if ct.PanicsIff != nil {
 		// the callee panics exactly under this condition: a caller that must not panic has to exclude it
 		if t, err := env.evalBool(ct.PanicsIff); err == nil {
-			f.safety(at, "callee-panics", st, not(t))
+			own := ""
+			if f == f.root && f.ct != nil && f.ct.PanicsIff != nil {
+				oenv := f.specEnv(f.entrySt)
+				oenv.pkg = f.ct.Pkg
+				if o, err := oenv.evalBool(f.ct.PanicsIff); err == nil {
+					own = o
+				}
+			}
+			if own != "" {
+				// the caller declares its own panic domain: the callee's panic must fall inside it, and the
+				// execution continues only where the callee did not panic
+				an, pos := f.anchor(at)
+				e.addOb("panics-only-if", f.ct.PanicsIff.Text+"|"+an, f.ct.PanicsIff.Tags, pos, and(st.cond, t), own)
+				st.cond = and(st.cond, not(t))
+			} else {
+				f.safety(at, "callee-panics", st, not(t))
+			}
 		} else {
 			e.note("panics_iff eval at call: " + err.Error())
 		}
